@@ -6,7 +6,7 @@ import sys
 from fractions import Fraction
 
 from .. import core
-from ..core import zlit, coq_list, zlist, coq_bool, coq_option, qlit
+from ..core import coq_list, coq_bool, coq_option, qlit
 from ..translate import c15 as tr
 from ..impl import c15_meshgen as G
 from ..impl import c15_oracle as O
@@ -47,6 +47,15 @@ def gen(ctx):
 
 
 # ---------------------------------------------------------------------- encoders
+# the case files open Z_scope: integer literals are written bare (far fewer tokens to parse than `3%Z`)
+def zlit(n):
+    return "(%d)" % n if n < 0 else "%d" % n
+
+
+def zlist(xs):
+    return coq_list([zlit(int(x)) for x in xs])
+
+
 def plist(ps):
     return coq_list(["(%s, %s)" % (zlit(a), zlit(b)) for a, b in ps])
 
@@ -65,8 +74,27 @@ def ints3(p):
     return "(%s, %s, %s)" % tuple(zlit(x) for x in out)
 
 
+def me(s):
+    """exact binary64 value given as 'num/den' -> (mantissa, exponent) with value = m * 2^e"""
+    f = Fraction(s)
+    if f == 0:
+        return 0, 0
+    x = float(f)
+    assert Fraction(x) == f, s
+    m, e = math.frexp(x)
+    mi = int(m * (1 << 53))
+    e -= 53
+    while mi % 2 == 0:
+        mi //= 2
+        e += 1
+    return mi, e
+
+
 def q3(p):
-    return "(%s, %s, %s)" % tuple(qlit(Fraction(s)) for s in p)
+    out = []
+    for s in p:
+        out += list(me(s))
+    return "(%s)" % ", ".join(zlit(x) for x in out)
 
 
 def cyc_obs_term(r):
@@ -109,18 +137,23 @@ def feat_case_term(case, obs):
     hard = "None" if t["hard"] is None else "(Some %s)" % zlist(t["hard"])
     m = "(mkF %s %s %s %s %s [] %s [])" % (zlit(t["nv"]), plist(t["edges"]), e2f, zlist(t["bedges"]), hard, v2e)
     ds = []
-    pi = Fraction(math.pi)
+    normals = angle = None
     for opt, d in zip(case["dets"], obs["dets"]):
         if "exc" in d:
             raise ValueError("detector raised: " + d["exc"])
         eps = Fraction(0) if case["exact"] else EPS
         o = "(mkO %s %s %s)" % (coq_bool(opt["only_border"]), coq_bool(opt["flag_corners"]), zlit(opt["corner_order"]))
-        half = coq_list([qlit(Fraction(a) / pi) for a in d["angle"]])
+        nn = coq_list([q3(n) for n in d["normals"]])
+        aa = coq_list(["(%s, %s)" % tuple(zlit(x) for x in me(a)) for a in d["angle"]])
+        if normals is None:
+            normals, angle = nn, aa
+        elif (normals, angle) != (nn, aa):
+            raise ValueError("two detector runs on the same mesh used different normals / angles")
         corners = "None" if d["corners"] is None else "(Some %s)" % plist(d["corners"])
-        ds.append("(mkDO %s %s %s %s %s %s %s %s %s %s)" % (
-            o, qlit(eps), qlit(EPS), coq_list([q3(n) for n in d["normals"]]), half, zlist(d["fe"]), zlist(d["fv"]),
+        ds.append("(mkDO %s %s %s %s %s %s %s %s)" % (
+            o, qlit(eps), qlit(EPS), zlist(d["fe"]), zlist(d["fv"]),
             plist(d["deg"]), coq_list(["(%s, %s)" % (zlit(v), zlist(l)) for v, l in d["local"]]), corners))
-    return "(mkFC %s %s)" % (m, coq_list(ds))
+    return "(mkFC %s %s %s %s)" % (m, normals or "[]", angle or "[]", coq_list(ds))
 
 
 # ---------------------------------------------------------------------- running the implementation
@@ -146,10 +179,15 @@ def strip(case):
     return {k: v for k, v in case.items() if k != "info"}
 
 
-def shrink(case, key):
+def shrink(case, key, budget=25.0):
     """Greedy: fewer starts / detector runs, then face deletion while the mesh stays an oriented manifold surface
-    and the same failure class persists."""
+    and the same failure class persists (bounded by a time budget)."""
+    import time
+    t0 = time.time()
+
     def still(c):
+        if time.time() - t0 > budget:
+            return False
         try:
             fs, _ = fails(c)
         except Exception:
@@ -281,7 +319,7 @@ def run(ctx):
     # 3. verdicts
     reported = set()
     for idx, key, msg in failures:
-        if key in reported or len(reported) > 12:
+        if key in reported or len(reported) >= 4:
             continue
         reported.add(key)
         if ctx.known(key):
